@@ -40,7 +40,8 @@ def build(chk):
     hydro_frame(chk)
     from . import C15_template as T15
     T15.c_template_matching(chk)
-    T15.template_frame(chk) if hasattr(T15, 'template_frame') else None
+    from .common import template_frame
+    template_frame(chk)
 
 
 def c_deflag(chk):
